@@ -106,7 +106,7 @@ def run_shard(rec, tier, seed, shard, nshards):
                 try:
                     crng = {"same-seed": lambda: np.random.default_rng(0), "seed-per-chunk": lambda: np.random.default_rng(1000 + c), "none": lambda: None, "shared-object": lambda: shared_gen}[rng_mode]()
                     h = score_chunk(scorer, thetas=None, screen=screen, distance_matrix=None, rng=crng, n_chunks=n_chunks, chunk_index=c, batch_plate_ids=batch_arg)
-                    fn = os.path.join(tmp, "sc_%d_%d.h5" % (si, c))
+                    fn = os.path.join(tmp, "sc_%d.h5" % c)  # same paths in every round: older chunk files must be replaced
                     h.save_h5(fn)
                     files.append(fn)
                 except Exception as e:
@@ -232,8 +232,6 @@ def run_shard(rec, tier, seed, shard, nshards):
                 rec.check(tuple(int(i) for i in np.flatnonzero(np.asarray(sel.selection_vector))) == plate_rows.get(pid), "C06/select/returned-plate-rows", "returned Plate object does not hold that plate's rows", ww)
             if si == 0 and shard == 0:
                 rec.sample({"plates": w["plates"], "n_chunks": n_chunks, "batch": batch, "scored_per_chunk": [sorted(c) for c in scorer.calls], "score_style": style})
-            for fn in files:
-                os.remove(fn)
 
         # ---------------------------------------------------- CLI path on real files
         n_cli = {"quick": 5, "thorough": 40}[tier]
